@@ -34,7 +34,7 @@ for id in "$@"; do
   res="$res\"$id\": {\"exit\": $rc, \"signatures\": \"$(echo $sigs | sed 's/"/\\"/g')\"},"
 done
 res="${res%,}}"
-git -C /repo checkout -q -- .
+git -C /repo checkout -q -- . ; git -C /repo clean -fdq
 rm -f /verif/replays/*.json
 cp $D/patch.diff $D/demo.rs $OUT/
 python3 - "$D/meta.json" "$OUT/meta.json" "$suite_ok" "$demo_mut" "$demo_clean" "$res" "$*" <<'PY'
